@@ -501,8 +501,14 @@ func coord(o *opts) int {
 			d[i] = r.Digests[mism[0]]
 		}
 		if d[0] != d[1] {
-			fmt.Fprintf(os.Stderr, "SIMULATOR NONDETERMINISM: case %s of %s seed %d gives different event logs in two fresh processes\n", mism[0], o.prop, o.seed)
-			return 2
+			if o.prop != "C02" || len(sigs) == 0 {
+				fmt.Fprintf(os.Stderr, "SIMULATOR NONDETERMINISM: case %s of %s seed %d gives different event logs in two fresh processes\n", mism[0], o.prop, o.seed)
+				return 2
+			}
+			// C02's subject is exactly this: if a violation found in this run reproduces
+			// from its replay file in a fresh process, the nondeterminism is the library's
+			// (e.g. an iteration the instrumenter could not take control of).
+			fmt.Printf("note: case %s gives different event logs even in two fresh processes; reporting only violations whose replay reproduces in a fresh process\n", mism[0])
 		}
 		historyDependent = true
 		fmt.Printf("note: %d case(s) gave different event logs in processes with different earlier activity (first: case %s), but identical logs in two fresh processes: the library's behaviour depends on earlier activity in the process\n", len(mism), mism[0])
@@ -550,7 +556,7 @@ func coord(o *opts) int {
 		exit = 1
 	}
 	if historyDependent && exit == 0 {
-		fmt.Fprintf(os.Stderr, "%s: the library's behaviour depends on earlier activity in the process (see note above; a C02 matter) and no %s violation could be confirmed by fresh-process replay: no verdict\n", o.prop, o.prop)
+		fmt.Fprintf(os.Stderr, "%s: event logs differ between processes (see note above) and no %s violation could be confirmed by fresh-process replay: no verdict\n", o.prop, o.prop)
 		return 2
 	}
 	wall := time.Since(start).Seconds()
